@@ -720,6 +720,9 @@ class Interp:
             src = plain.resolve(self, src)
         if isinstance(src, (plain.VPList, plain.VPMap, plain.VPIter)):
             return self.symbolic_for(st, env, src)
+        from . import relmap
+        if relmap.is_keyset(src):
+            return relmap.foreach(self, st, env, src)
         if isinstance(src, VSeq) and self.loop_spec() is not None:
             # a homogeneous list of symbolic length (list[str] / list[int] argument): arbitrary element, invariant rule
             seq = src
@@ -811,13 +814,14 @@ class Interp:
                     mutated.discard(n.id)
         return assigned, mutated
 
-    def _loop_enter(self, st, env, target=None):
+    def _loop_enter(self, st, env, target=None, tracked=(), force=()):
         """Check the invariant on entry and havoc the loop-carried state. Returns the declared (name, shape) list."""
         from . import shapes
         spec = self.loop_spec()
         if spec is None:
             raise OutOfSubset(f"loop over a collection of symbolic size at line {st.lineno} without a declared invariant")
         assigned, mutated = self._loop_effects(st.body, target)
+        mutated = (mutated - set(tracked)) | {n for n in force if n not in assigned}  # tracked: handled by the foreach rule (relmap.py); force: declared names used in the body
         declared = []
         for name in sorted(assigned | mutated):
             cur = env.lookup(name)
